@@ -1631,7 +1631,7 @@ class CollocatedIntegratedOptimizationProblem(OptimizationProblem, metaclass=ABC
                             ca.horzcat(*constant_inputs[variable][1:])
                             for variable in dae_constant_inputs_names
                         ],
-                        ca.horzcat(*collocation_times[1:]),
+                        ca.horzcat(*(collocation_times[1:] - t0)),
                         path_variables.T if path_variables.numel() > 0 else ca.MX(),
                         *[
                             ca.horzcat(*extra_constant_inputs[variable][1:])
